@@ -156,6 +156,9 @@ func errClass(err error) string {
 	if strings.Contains(err.Error(), "maximum count of segment files") {
 		return "err:full"
 	}
+	if strings.Contains(err.Error(), "can't acquire a lock to preallocate file") {
+		return "err:busy" // setupNewFile does not retry its preallocation lock
+	}
 	return "err"
 }
 
@@ -810,7 +813,7 @@ func driveC21(o hx.RunOpts) error {
 	}
 	s.Rep.CoverageGap = append(s.Rep.CoverageGap,
 		"the 1000-segment limit of findOneFileRegion is modelled (Out.full) but never reached by a generated case",
-		"several writers: single-handle calls only; interleavings at the granularity of lock-cache and block IO calls (a block write is atomic, no crash: C22); the race inside setupNewFile (two writers creating the same segment file) and lock expiry (5 min TTL) are not exercised; all writers share one replication tracker without a transaction id",
+		"several writers: single-handle calls only; interleavings at the granularity of lock-cache and block IO calls (a block write is atomic, no crash: C22); inside setupNewFile the window between Open(O_CREATE) and Truncate (no call to park at) and lock expiry (5 min TTL) are not exercised; all writers share one replication tracker without a transaction id",
 		"ids are never the nil UUID; update batches contain at most one absent id (two absent ids of one block in one UpdateNoLocks call are located before either is written)")
 	return s.Finish()
 }
